@@ -291,6 +291,11 @@ class Fn:
                     return f"{z} = true", None
                 if isinstance(op, ast.Gt):
                     return f"¬ {z} = true", None
+            # self.size <op> <integer literal>
+            if U(a) == "self.size" and isinstance(b, ast.Constant) and isinstance(b.value, int) and not isinstance(b.value, bool) \
+                    and type(op) in (ast.Lt, ast.LtE, ast.Gt, ast.GtE, ast.Eq, ast.NotEq):
+                sym = {ast.Lt: "<", ast.LtE: "≤", ast.Gt: ">", ast.GtE: "≥", ast.Eq: "=", ast.NotEq: "≠"}[type(op)]
+                return f"{self.self_attr('size', a)[0]} {sym} {b.value}", None
             # radius comparisons
             if self.is_rad(a) and isinstance(op, ast.Lt) and U(b) == "0":
                 return f"pyLt0 {self.env[a.id][0]} = true", None
@@ -509,9 +514,19 @@ class Fn:
             self.bad(e)
         if f == "np.linalg.norm" and len(e.args) == 1 and set(kw) == {"axis"} and U(kw["axis"]) == "1":
             x, tx, bx = self.expr(e.args[0])
-            if tx == "Lat":
+            if tx in ("Lat", "Pts"):
                 return f"npNormRows {P(x)}", "KVec", bx
             self.bad(e)
+        if f in ("np.flatnonzero", "np.nonzero", "np.where") and len(e.args) == 1 and not kw and isinstance(e.args[0], ast.Compare) \
+                and len(e.args[0].ops) == 1 and type(e.args[0].ops[0]) in (ast.Lt, ast.LtE) and f == "np.flatnonzero":
+            # np.flatnonzero(dists < r) / (dists <= r): the positions, ascending (a direct scan instead of the tree)
+            cmp_ = e.args[0]
+            x, tx, bx = self.expr(cmp_.left)
+            y, ty, by = self.expr(cmp_.comparators[0])
+            if tx != "KVec" or ty != "K":
+                self.bad(e, f"comparison of {tx} with {ty}")
+            fn = "npFlatnonzeroLt" if isinstance(cmp_.ops[0], ast.Lt) else "npFlatnonzeroLe"
+            return f"{fn} {P(x)} {P(y)}", "Idx", bx + by
         if f == "np.zeros":
             s = U(e.args[0]) if e.args else ""
             if len(e.args) == 1 and isinstance(e.args[0], ast.Attribute) and e.args[0].attr == "shape" and not kw:
@@ -790,6 +805,11 @@ class Fn:
             self.asarrayed.add(tg.id)
             out.append(f"{ind}-- {src}")
             return self.block(rest, ind, out)
+        if isinstance(tg, ast.Subscript) and self.is_self_attr(tg.value) and self.mode == "method" and inplace_whole(tg):
+            # self._x[...] = value: for the object itself the new contents are `value` (same shape: the guard above);
+            # that the *old array* is overwritten is recorded in the effect list `<setter>_eff`
+            tg = tg.value
+            src = src + "   [in place]"
         if self.expr_none(s.value) and self.is_self_attr(tg) and tg.attr == "_kdtree":
             e, ty, binds = "none", "Tree", []
         else:
@@ -1486,6 +1506,46 @@ def effects(src, cls, name):
     return out
 
 
+def inplace_whole(tg):
+    """`x[...]` / `x[:]` as an assignment target: the whole array is overwritten."""
+    sl = tg.slice
+    return (isinstance(sl, ast.Constant) and sl.value is Ellipsis) or \
+        (isinstance(sl, ast.Slice) and sl.lower is None and sl.upper is None and sl.step is None)
+
+
+def eff_list(src, cls, name):
+    """The array effects of a setter in source order (`Model/LocalGridEff.lean`): guards, attribute rebinds, and
+    write-through assignments (`self._x[...] = v`, `self._x[:] = v`, `self._x += v`, `np.copyto(self._x, v)`)."""
+    owner, f, m = src.find(cls, name, setter=True)
+    out = []
+
+    def is_self(n):
+        return isinstance(n, ast.Attribute) and isinstance(n.value, ast.Name) and n.value.id == "self"
+    for s in m.body:
+        if is_doc(s):
+            continue
+        if isinstance(s, ast.If) and len(s.body) == 1 and isinstance(s.body[0], ast.Raise) and not s.orelse:
+            out.append(".guard")
+        elif isinstance(s, ast.Assign) and len(s.targets) == 1 and is_self(s.targets[0]) and isinstance(s.value, ast.Name):
+            out.append(f'.rebind "{s.targets[0].attr}" "{s.value.id}"')
+        elif isinstance(s, ast.Assign) and len(s.targets) == 1 and is_self(s.targets[0]) and isinstance(s.value, ast.Constant) \
+                and s.value.value is None:
+            out.append(f'.rebindNone "{s.targets[0].attr}"')
+        elif isinstance(s, ast.Assign) and len(s.targets) == 1 and isinstance(s.targets[0], ast.Subscript) \
+                and is_self(s.targets[0].value) and isinstance(s.value, ast.Name):
+            out.append(f'.write "{s.targets[0].value.attr}" "{s.value.id}"')
+        elif isinstance(s, ast.AugAssign) and (is_self(s.target) or (isinstance(s.target, ast.Subscript) and is_self(s.target.value))) \
+                and isinstance(s.value, ast.Name):
+            t = s.target if is_self(s.target) else s.target.value
+            out.append(f'.write "{t.attr}" "{s.value.id}"')
+        elif isinstance(s, ast.Expr) and isinstance(s.value, ast.Call) and U(s.value.func) == "np.copyto" and len(s.value.args) == 2 \
+                and is_self(s.value.args[0]) and isinstance(s.value.args[1], ast.Name):
+            out.append(f'.write "{s.value.args[0].attr}" "{s.value.args[1].id}"')
+        else:
+            raise Unsupported(f"{owner}.{name} (setter): array effect of `{U(s)[:80]}` is not carried")
+    return out
+
+
 def lean_str(s):
     return '"' + s.replace("\\", "\\\\").replace('"', '\\"') + '"'
 
@@ -1494,13 +1554,16 @@ def render(src_dir=None) -> str:
     src = Source(src_dir or SRC)
     parts = [HEADER.format(name="localgrid", source="src/grid/basegrid.py (Grid, OneDGrid: setters, get_localgrid, __getitem__), "
                            "src/grid/periodicgrid.py (PeriodicGrid: __init__, points setter, __getitem__, get_localgrid)")]
-    parts.append("import GridVerif.Model.LocalGridPy\n\nset_option linter.unusedVariables false\n\n"
+    parts.append("import GridVerif.Model.LocalGridPy\nimport GridVerif.Model.LocalGridEff\n\nset_option linter.unusedVariables false\n\n"
                  "namespace GridVerif.Gen.LocalGrid\nopen GridVerif GridVerif.LocalGrid GridVerif.Periodic GridVerif.LocalGridPy\n")
     for cls, nm in (("Grid", "points"), ("Grid", "weights"), ("PeriodicGrid", "points")):
         eff = effects(src, cls, nm)
         parts.append(f"/-- Effect summary of the `{cls}.{nm}` setter: guards and assignments in source order. -/\n"
                      f"def {cls}_{nm}_set_effects : List (String × String) :=\n  ["
                      + ",\n   ".join(f"({lean_str(a)}, {lean_str(b)})" for a, b in eff) + "]\n")
+    for cls, nm in (("Grid", "points"), ("Grid", "weights")):
+        parts.append(f"/-- Array effects of the `{cls}.{nm}` setter in source order (rebinds and write-through assignments). -/\n"
+                     f"def {cls}_{nm}_set_eff : List LocalGridEff.Eff :=\n  [" + ", ".join(eff_list(src, cls, nm)) + "]\n")
     parts.append("section\n" + VARS)
     parts.append(translate_method(src, "Grid", "points", "State", [("value", "Pts")], setter=True,
                                   what=" setter: shape guard, new points, the neighbour tree is dropped"))
